@@ -29,17 +29,54 @@
 (*             ndiv (E not a multiple of nt: a remainder to hand out) /    *)
 (*             div / div64 (E / nt a multiple of 64: a chunk border on a   *)
 (*             cache line) / gtrows (more threads than image rows)         *)
+(*   options   every scalar (non-array, non-hidden) argument of every      *)
+(*             kernel of the pyf is listed in ScalarArgs with the          *)
+(*             dimension of the lattice that carries it (the harness       *)
+(*             compares the table with the f2py signatures of the module   *)
+(*             built from the tree under test);                            *)
+(*             every integer scalar (flag, option, count) is a dimension:  *)
+(*             con8 0/1, boundscheck 0/1, recompute 0/1, label 1/2, npx    *)
+(*             0/1/2, n (iterations) 1/3, omegasign +1/-1, and verbose in  *)
+(*             Verb = {0, 1, 2, 11} (the C sources test verbose != 0,      *)
+(*             > 0, > 1 and > 10) times every small shape, content and     *)
+(*             parameter class (the kernels' stdout is swallowed)          *)
+(*   runtime   OmpEnvs: OpenMP environments of the process in which the    *)
+(*             team a parallel region gets differs from                    *)
+(*             omp_get_max_threads() (thread limit below OMP_NUM_THREADS,  *)
+(*             dynamic adjustment): every kernel with a size (not only     *)
+(*             ParK) on its large sizes / shapes, EnvNs = 8 and 24 chunks  *)
+(*             of 4096 (+ a remainder) - enough chunks for a team larger   *)
+(*             than the thread limit to matter                             *)
+(*   callers   Callers: the Python functions / caching objects of          *)
+(*             ImageD11.sparseframe and ImageD11.labelimage that allocate  *)
+(*             the work arrays of the kernels (Calls(w) = the kernels      *)
+(*             behind a caller).  Lattice: shape x two contents x label    *)
+(*             numbering (per frame; running through the scan so that the  *)
+(*             largest label is exactly the allocated capacity, one above  *)
+(*             it, or 100000 above the pixel count) x capacity the caching *)
+(*             object was created with (default, tight = pixels on a frame *)
+(*             + 1, 1) x verbose.  Extents(k) names the preconditions of   *)
+(*             a kernel that the f2py layer does not enforce (tmp longer   *)
+(*             than the largest label, results rows >= npk, indices in     *)
+(*             range, ..): the harness asserts them on every call a Python *)
+(*             caller makes                                                *)
 (*                                                                         *)
 (* variables  pc   stage of the construction of one call descriptor        *)
-(*            d    the descriptor  [k, ns, nf, c1, c2, n, m, par, opt, nt] *)
+(*            d    the descriptor  [k, ns, nf, c1, c2, n, m, par, opt, vb, *)
+(*                 nt, env]                                                *)
 (* actions    PickKernel PickShape PickBigShape PickStripShape PickSize    *)
-(*            PickContent PickContent2 PickSize2 PickParam PickOption      *)
-(*            PickThreads PickHugeShape Finish                             *)
+(*            PickEnvSize PickContent PickContent2 PickSize2 PickParam     *)
+(*            PickOption CheckWF PickVerbose PickThreads PickEnv           *)
+(*            PickHugeShape Finish                                         *)
 (*            (one action per choice; the reachable graph is a tree whose  *)
 (*            leaves are the descriptors)                                  *)
 (* invariants TypeOK                                                       *)
 (*            WellFormedInv  every finished descriptor satisfies           *)
-(*                 WellFormed(d): the kernel's preconditions stated on the *)
+(*                 WellFormed(d) (checked by CheckWF once the arrays of    *)
+(*                 the call are decided, i.e. before verbose / threads /   *)
+(*                 environment are chosen, which touch no array; evaluated *)
+(*                 again on the finished descriptors without those three): *)
+(*                 the kernel's preconditions stated on the                *)
 (*                 *arrays* of the call (sorted coo, labels <= npk,        *)
 (*                 indices < m when boundscheck = 0, adr a permutation,    *)
 (*                 order sorts ar, sorted id lists, low < high, nhist >= 1,*)
@@ -60,6 +97,15 @@
 (*                 ThreadScope (a kernel of ParK, a small / strip shape    *)
 (*                 with a dense content, a non-empty list) and shares out  *)
 (*                 at least one element                                    *)
+(*            OptionInv  verbose > 0 only where the interface has a        *)
+(*                 verbose argument; a call in an OpenMP environment lies  *)
+(*                 in EnvScope (large size) and the environment's team may *)
+(*                 differ from omp_get_max_threads()                       *)
+(*            WrapperInv  the allocation rule of the overlap callers       *)
+(*                 (tmp = max(capacity, pixels, n1, n2) + 1 entries)       *)
+(*                 satisfies compress_duplicates' precondition CdPre for   *)
+(*                 every label numbering of the lattice (small shapes:     *)
+(*                 evaluated on the materialised labels)                   *)
 (*            Emit  prints one JSON line per descriptor; descriptors with  *)
 (*                 <= 16 pixels / <= 4 entries carry the materialised      *)
 (*                 arrays (masks, labels by the independent closure        *)
@@ -72,7 +118,11 @@
 (*            every kernel of ParK meets each relation one / gtE / ndiv /  *)
 (*            div / div64 between thread count and trip count somewhere in *)
 (*            its lattice (the harness re-counts this on the executed      *)
-(*            calls); the HugeShapes are exactly where Tiles fails         *)
+(*            calls); the HugeShapes are exactly where Tiles fails; every  *)
+(*            integer scalar argument is a lattice dimension with more     *)
+(*            than one value; every OpenMP environment may deliver a team  *)
+(*            other than omp_get_max_threads() and EnvNs holds more chunks *)
+(*            than every thread limit                                      *)
 (* bounds     Thorough = FALSE/TRUE selects the shape, size and thread     *)
 (*            count sets                                                   *)
 (***************************************************************************)
@@ -114,8 +164,97 @@ ASSUME Cardinality(ImgK) + Cardinality(SparseK) + Cardinality(PeakK) + Cardinali
          = Cardinality(Kernels)                                        \* the families are pairwise disjoint
 ASSUME Cardinality(Kernels) = 55
 
+\* ---- the Python callers that allocate the kernels' work arrays (ImageD11/sparseframe.py, ImageD11/labelimage.py) ------
+\*  py:overlaps_linear   sparseframe.overlaps_linear   (caching object: ki kj ect tj of nnzmax, tmp of nnzmax + 1 entries)
+\*  py:overlaps_matrix   sparseframe.overlaps_matrix   (caching object: matmem npkmax^2, results 3 npkmax^2)
+\*  py:overlaps          sparseframe.overlaps          (tmp of max(n1, n2) + 1 entries)
+\*  py:scan_cplabel / py:scan_lmlabel   SparseScan.cplabel / lmlabel (slices of the scan's arrays, vmx / imx of nnz.max())
+\*  py:labelimage        labelimage.labelimage peaksearch / mergelast / finalise over three frames (verbose attribute)
+Callers == {"py:overlaps_linear", "py:overlaps_matrix", "py:overlaps", "py:sparse_connected_pixels", "py:sparse_localmax",
+            "py:sparse_smooth", "py:sparse_moments", "py:from_data_mask", "py:from_data_cut", "py:scan_cplabel",
+            "py:scan_lmlabel", "py:labelimage"}
+Calls(w) == CASE w = "py:overlaps_linear"         -> {"sparse_overlaps", "compress_duplicates"}
+              [] w = "py:overlaps_matrix"         -> {"coverlaps"}
+              [] w = "py:overlaps"                -> {"sparse_overlaps", "compress_duplicates"}
+              [] w = "py:sparse_connected_pixels" -> {"sparse_connectedpixels"}
+              [] w = "py:sparse_localmax"         -> {"sparse_localmaxlabel"}
+              [] w = "py:sparse_smooth"           -> {"sparse_smooth"}
+              [] w = "py:sparse_moments"          -> {"sparse_blob2Dproperties"}
+              [] w = "py:from_data_mask"          -> {"mask_to_coo"}
+              [] w = "py:from_data_cut"           -> {"tosparse_u16", "tosparse_f32"}
+              [] w = "py:scan_cplabel"            -> {"sparse_connectedpixels"}
+              [] w = "py:scan_lmlabel"            -> {"sparse_smooth", "sparse_localmaxlabel"}
+              [] w = "py:labelimage"              -> {"connectedpixels", "blobproperties", "bloboverlaps", "blob_moments"}
+ASSUME Callers \cap Kernels = {} /\ \A w \in Callers : Calls(w) # {} /\ Calls(w) \subseteq Kernels
+\* shapes and contents of the callers' lattice: what matters is the relation of label values to pixel counts and
+\* capacities, not the width of the image
+WShapes == {<<1, 3>>, <<2, 2>>, <<3, 3>>, <<2, 5>>, <<4, 4>>, <<2, 4096>>}
+WContents == {"empty", "full", "chk0", "dots", "hstr", "br", "gap", "diag"}
+AllK == Kernels \cup Callers
+
 Fam(k) == IF k \in ImgK THEN "img" ELSE IF k \in SparseK THEN "sparse" ELSE IF k \in PeakK THEN "peak"
-          ELSE IF k \in VecK THEN "vec" ELSE "fix"
+          ELSE IF k \in VecK THEN "vec" ELSE IF k \in Callers THEN "wrap" ELSE "fix"
+
+\* ---- the scalar (non-array, non-hidden, non-output) arguments of the interface: <<name, type, dimension>> ---------------
+\*   dimension: "par" parameter classes Pars(k), "opt" Opts(k), "vb" Verbs(k), "n" Ns(k), "shape" the image shape,
+\*              "m" Ms(k, n), "fixed" one value in the harness (real-valued physical constants only)
+ScalarArgs(k) ==
+  CASE k = "connectedpixels"              -> {<<"threshold", "real", "par">>, <<"con8", "int", "opt">>, <<"verbose", "int", "vb">>}
+    [] k = "blobproperties"               -> {<<"np", "int", "par">>, <<"omega", "real", "fixed">>, <<"verbose", "int", "vb">>}
+    [] k = "bloboverlaps"                 -> {<<"npk1", "int", "par">>, <<"npk2", "int", "par">>, <<"verbose", "int", "vb">>}
+    [] k = "make_clean_mask"              -> {<<"cut", "real", "par">>}
+    [] k = "splat"                        -> {<<"npx", "int", "opt">>}
+    [] k = "sparse_connectedpixels"       -> {<<"threshold", "real", "par">>}
+    [] k = "sparse_connectedpixels_splat" -> {<<"th", "real", "par">>, <<"ni", "int", "shape">>, <<"nj", "int", "shape">>}
+    [] k = "sparse_blob2Dproperties"      -> {<<"npk", "int", "par">>}
+    [] k = "tosparse_u16"                 -> {<<"cut", "int", "par">>}
+    [] k \in {"tosparse_u32", "tosparse_f32"} -> {<<"cut", "real", "par">>}
+    [] k = "verify_rounding"              -> {<<"n", "int", "n">>}
+    [] k \in {"score", "score_and_refine"} -> {<<"tol", "real", "fixed">>}
+    [] k = "score_and_assign"             -> {<<"tol", "real", "fixed">>, <<"label", "int", "opt">>}
+    [] k = "refine_assigned"              -> {<<"label", "int", "opt">>}
+    [] k \in {"put_incr32", "put_incr64"} -> {<<"boundscheck", "int", "opt">>}
+    [] k = "cluster1d"                    -> {<<"tol", "real", "fixed">>}
+    [] k = "score_gvec_z"                 -> {<<"recompute", "int", "opt">>}
+    [] k \in {"compute_geometry", "compute_gv"}
+                                          -> {<<"omegasign", "real", "opt">>, <<"wvln", "real", "fixed">>,
+                                              <<"wedge", "real", "par">>, <<"chi", "real", "par">>}
+    [] k \in {"frelon_lines", "frelon_lines_sub"} -> {<<"cut", "real", "par">>}
+    [] k \in {"array_mean_var_cut", "array_mean_var_msk"}
+                                          -> {<<"n", "int", "opt">>, <<"cut", "real", "fixed">>, <<"verbose", "int", "vb">>}
+    [] k = "array_histogram"              -> {<<"low", "real", "fixed">>, <<"high", "real", "fixed">>}
+    [] k = "bgcalc"                       -> {<<"gain", "real", "fixed">>, <<"sp", "real", "fixed">>, <<"st", "real", "fixed">>}
+    \* (`intent( hidden )` in the pyf hides nothing: ni, nj are optional arguments; the wrapper accepts only the lengths)
+    [] k = "count_shared"                 -> {<<"ni", "int", "n">>, <<"nj", "int", "m">>}
+    [] OTHER                              -> {}
+\* every integer scalar - a flag, an option, a count - is a dimension of the lattice
+ASSUME \A k \in Kernels : \A a \in ScalarArgs(k) : a[2] = "int" => a[3] # "fixed"
+VerbK == {k \in Kernels : \E a \in ScalarArgs(k) : a[3] = "vb"}
+Verb == {0, 1, 2, 11}           \* the sources test verbose != 0, verbose > 0, verbose > 1, verbose > 10
+Verbs(k) == IF k \in VerbK \/ k = "py:labelimage" THEN Verb ELSE {0}
+
+\* ---- preconditions of the kernels that the f2py layer does NOT enforce (it checks ranks, dtypes and the extents tied
+\*      together by a shared dimension name; a `:` / `*` extent, the values inside an index array and the relation
+\*      between a label array and a capacity are the caller's duty).  The harness asserts them on the arguments of
+\*      every call that a Python caller (Callers, and the callers driven by the re-used kernel models) makes.
+Extents(k) ==
+  CASE k = "compress_duplicates" -> {"n >= 1", "0 <= i, j", "max(i, j) < len(tmp)"}      \* tmp is a histogram indexed by LABEL VALUE
+    [] k = "coverlaps"           -> {"coo strictly sorted", "labels1 in 1..npk1", "labels2 in 1..npk2",
+                                     "len(results) >= 3 * overlapping label pairs"}
+    [] k = "bloboverlaps"        -> {"rows(results1) >= npk1", "rows(results2) >= npk2", "labels1 in 0..npk1", "labels2 in 0..npk2"}
+    [] k = "connectedpixels"     -> {"nf >= 2"}
+    [] k = "localmaxlabel"       -> {"nf >= 2"}
+    [] k \in {"clean_mask", "make_clean_mask"} -> {"ns >= 2"}
+    [] k \in {"sparse_connectedpixels", "sparse_localmaxlabel", "sparse_smooth", "sparse_overlaps"} -> {"coo strictly sorted"}
+    [] k = "sparse_connectedpixels_splat" -> {"coo strictly sorted", "i < ni, j < nj"}
+    [] k = "sparse_blob2Dproperties" -> {"labels >= 0"}
+    [] k = "tosparse_u32"        -> {"len(row), len(col), len(val) >= selected pixels"}
+    [] k \in {"put_incr32", "put_incr64"} -> {"boundscheck = 0 => 0 <= ind < m"}
+    [] k \in {"reorder_u16_a32", "reorder_f32_a32", "reorderlut_u16_a32", "reorderlut_f32_a32"} -> {"0 <= adr < N"}
+    [] k = "reorder_u16_a32_a16" -> {"0 <= adr0 + cumsum(adr1) < ns * nf"}
+    [] k = "cluster1d"           -> {"0 <= order < n"}
+    [] k = "array_histogram"     -> {"nhist >= 1"}
+    [] OTHER                     -> {}
 
 \* ---- what the interface promises on return: output -> how much of it is defined -----------
 \*   "all"     every cell written          "prefix"  the first <return value> cells (rows)
@@ -232,6 +371,9 @@ Big(k)  == k \in {"connectedpixels", "localmaxlabel", "mask_to_coo", "blobproper
 C2s(k) == CASE k = "bloboverlaps"                                     -> {"same", "full", "empty", "chk1", "rowN"}
             [] k \in {"tosparse_u16", "tosparse_u32", "tosparse_f32"} -> {"full", "empty", "chk0"}
             [] k \in {"sparse_overlaps", "coverlaps"}                 -> {"same", "full", "chk1", "br"}
+            [] k \in {"py:overlaps_linear", "py:overlaps_matrix", "py:overlaps", "py:labelimage"}
+                                                                      -> {"same", "full", "chk1", "br", "empty"}
+            [] k \in {"py:scan_cplabel", "py:scan_lmlabel"}           -> {"same", "chk1", "empty"}
             [] OTHER                                                  -> {"-"}
 Ns(k) == CASE k \in {"score", "score_and_refine", "score_and_assign", "refine_assigned", "score_gvec_z",
                      "compute_gv", "compute_geometry", "compute_xlylzl"}      -> PeakNs
@@ -281,6 +423,13 @@ Pars(k) ==
     [] k = "array_histogram"                                          -> {"inside", "edges", "outside"}
     [] k \in {"misori_cubic", "misori_orthorhombic", "misori_tetragonal", "misori_monoclinic"} -> {"ident", "rot"}
     [] k = "blob_moments"                                             -> {"zero", "filled"}
+    \* callers: how the labels handed over are numbered (LabCls below) / thresholds
+    [] k = "py:overlaps_linear"                                       -> {"frame", "atcap", "above", "far"}
+    [] k = "py:overlaps_matrix"                                       -> {"frame"}
+    [] k = "py:overlaps"                                              -> {"frame", "far"}
+    [] k \in {"py:sparse_connected_pixels", "py:from_data_cut", "py:scan_cplabel"} -> {"zero", "mid", "max"}
+    [] k \in {"py:sparse_localmax", "py:sparse_smooth", "py:scan_lmlabel"} -> {"ramp", "flat"}
+    [] k = "py:labelimage"                                            -> {"zero", "mid"}
     [] OTHER                                                          -> {"-"}
 Opts(k) ==
   CASE k = "connectedpixels"                       -> {0, 1}          \* con8
@@ -289,8 +438,17 @@ Opts(k) ==
     [] k = "splat"                                 -> {0, 1, 2}       \* npx
     [] k \in {"tosparse_u32", "coverlaps"}         -> {0, 1}          \* 1: dimension(*) buffers exactly as long as needed
     [] k \in {"array_mean_var_cut", "array_mean_var_msk"} -> {1, 3}   \* n iterations
-    [] k = "score_and_assign"                      -> {1, 2}          \* label
+    [] k \in {"score_and_assign", "refine_assigned"} -> {1, 2}        \* label
+    [] k \in {"compute_geometry", "compute_gv"}    -> {0, 1}          \* omegasign +1 / -1
+    [] k \in {"py:overlaps_linear", "py:overlaps_matrix"} -> {0, 1, 2} \* capacity of the caching object: default / tight / 1
+    [] k = "py:from_data_cut"                      -> {0, 1}          \* uint16 / float32 data
+    [] k = "py:scan_cplabel"                       -> {0, 1}          \* countall
+    [] k = "py:scan_lmlabel"                       -> {0, 1, 2, 3}    \* countall + 2 * smooth
     [] OTHER                                       -> {0}
+
+ASSUME \A k \in Kernels : (\E a \in ScalarArgs(k) : a[3] = "opt") => Cardinality(Opts(k)) > 1
+ASSUME \A k \in Kernels : (\E a \in ScalarArgs(k) : a[3] = "par") => Cardinality(Pars(k)) > 1
+ASSUME \A k \in Kernels : (\E a \in ScalarArgs(k) : a[3] = "n") => Cardinality(Ns(k)) > 1
 
 \* ---- index / value classes of the 1-D kernels (formulas shared with the harness generator) ----
 PutInd(par, m, t) == CASE par = "zero" -> 0 [] par = "last" -> m - 1 [] par = "ramp" -> (7 * t + 3) % m
@@ -337,7 +495,7 @@ HugeShapes == IF Thorough THEN {<<4096, 4096>>} ELSE {}
 HugeNT == 128
 \* calls that carry a thread count: every non-empty list size / parameter class of the 1-D kernels; images on the small and the
 \* strip shapes with the four dense contents and one parameter class
-ThreadScope(x) == /\ x.k \in ParK
+ThreadScope(x) == /\ x.k \in ParK /\ x.vb = 0
                   /\ Fam(x.k) = "img" => /\ <<x.ns, x.nf>> \in ThreadShapes \cup HugeShapes
                                          /\ x.c1 \in BigContents /\ x.par \in BigPars(x.k)
                   /\ Fam(x.k) # "img" => x.n >= 1                 \* (empty lists are refused by the wrappers)
@@ -355,12 +513,33 @@ Tiles(E, nt) == /\ E <= 2147483647 \div nt                                  \* n
 PartFits(x) == (x.k = "localmaxlabel" /\ x.nt > 0) => Tiles(x.ns * x.nf, x.nt)
 ASSUME \A s \in HugeShapes : ~Tiles(s[1] * s[2], HugeNT)        \* (the first conjunct fails; the rest is not evaluated)
 
+\* ---- OpenMP environments of the process: the team a parallel region gets is not omp_get_max_threads() ---------------
+\* num = OMP_NUM_THREADS, limit = OMP_THREAD_LIMIT (0: none), dyn = OMP_DYNAMIC, sched = OMP_SCHEDULE ("-": none).
+\* A kernel may size per-thread ranges / buffers only by what it is given inside the region (omp_get_num_threads()):
+\* its outputs do not depend on how many threads the runtime delivers (compared with the same call on one thread)
+OmpEnvs == << [num |-> 8,  limit |-> 3, dyn |-> FALSE, sched |-> "-"],
+              [num |-> 16, limit |-> 0, dyn |-> TRUE,  sched |-> "-"],
+              [num |-> 5,  limit |-> 2, dyn |-> FALSE, sched |-> "dynamic,1"] >>
+TeamMayDiffer(e) == (e.limit > 0 /\ e.limit < e.num) \/ e.dyn
+ASSUME \A i \in DOMAIN OmpEnvs : TeamMayDiffer(OmpEnvs[i]) /\ OmpEnvs[i].num > 1
+\* list sizes reserved for these calls: 8 and 24 chunks of 4096 and a remainder (a team of min(max_threads, chunks)
+\* threads is larger than every thread limit above)
+EnvNs == {8 * Chunk + 1, 24 * Chunk + 5}
+EnvShapes == IF Thorough THEN {<<1024, 1024>>} ELSE {}
+ASSUME \A e \in DOMAIN OmpEnvs : \A n \in EnvNs : OmpEnvs[e].limit > 0 => n \div Chunk > OmpEnvs[e].limit
+HasEnvNs(k) == Fam(k) \in {"peak", "vec"} /\ (2 * Chunk + 1) \in Ns(k)      \* the kernels whose lists may be long
+EnvOnly(x) == (Fam(x.k) \in {"peak", "vec"} /\ x.n \in EnvNs) \/ <<x.ns, x.nf>> \in EnvShapes
+EnvScope(x) == /\ x.vb = 0 /\ Fam(x.k) \in {"img", "sparse", "peak", "vec"}
+               /\ Fam(x.k) \in {"img", "sparse"} => /\ <<x.ns, x.nf>> \in BigShapes \cup EnvShapes \cup {<<1001, 5>>, <<5, 1001>>, <<Chunk, 2>>, <<2, Chunk>>}
+                                                    /\ x.c1 \in BigContents /\ x.par \in BigPars(x.k)
+               /\ Fam(x.k) \in {"peak", "vec"} => x.n >= Chunk
+
 \* ---- state ------------------------------------------------------------------------------------
 VARIABLES pc, d
 vars == <<pc, d>>
 D0 == [k |-> "-", ns |-> 0, nf |-> 0, c1 |-> "-", c2 |-> "-", n |-> 0, m |-> 0, par |-> "-", opt |-> 0, big |-> FALSE,
-       nt |-> 0]
-Stages == {"kernel", "shape", "c1", "c2", "n", "m", "par", "opt", "nt", "finish", "done"}
+       nt |-> 0, vb |-> 0, env |-> 0]
+Stages == {"kernel", "shape", "c1", "c2", "n", "m", "par", "opt", "wf", "vb", "nt", "finish", "done"}
 \* every parallel kernel meets every relation between thread count and trip count somewhere in its lattice
 TripsOf(k) == IF Fam(k) = "img"
               THEN {Trip([D0 EXCEPT !.k = k, !.ns = s[1], !.nf = s[2]]) : s \in {s \in ThreadShapes : s[1] >= MinR(k) /\ s[2] >= MinC(k)}}
@@ -371,13 +550,20 @@ Init == pc = "kernel" /\ d = D0
 
 PickKernel(k) == /\ pc = "kernel"
                  /\ d' = [d EXCEPT !.k = k]
-                 /\ pc' = IF Fam(k) \in {"img", "sparse"} THEN "shape" ELSE "n"
+                 /\ pc' = IF Fam(k) \in {"img", "sparse", "wrap"} THEN "shape" ELSE "n"
 PickShape(s) == /\ pc = "shape" /\ s[1] >= MinR(d.k) /\ s[2] >= MinC(d.k)
+                \* callers: the relation of label values to pixel counts and capacities is what matters, not the width
+                /\ (Fam(d.k) = "wrap" => s \in WShapes)
+                \* (the smoothing kernel scans whole rows per pixel and the scan callers label four frames per call)
+                /\ (d.k \in {"py:scan_cplabel", "py:scan_lmlabel", "py:sparse_smooth", "py:sparse_localmax"} => s[1] * s[2] <= 16)
                 \* coverlaps needs an npk1 x npk2 matrix from the caller: isolated pixels on the widest shapes
                 \* would ask for gigabytes
                 /\ (d.k = "coverlaps" => s[1] * s[2] <= 2 * Chunk)
                 /\ d' = [d EXCEPT !.ns = s[1], !.nf = s[2]] /\ pc' = "c1"
-PickBigShape(s) == /\ pc = "shape" /\ Big(d.k)
+PickBigShape(s) == /\ pc = "shape" /\ s[1] >= MinR(d.k) /\ s[2] >= MinC(d.k)
+                   /\ \/ s \in BigShapes /\ Big(d.k)
+                      \/ s \in EnvShapes /\ (Big(d.k) \/ d.k \in ParK) /\ d.k # "sparse_smooth"   \* (O(nnz * row width))
+                      \/ s = <<150, 260>> /\ d.k = "py:overlaps_linear"     \* more pixels on a frame than the default capacity
                    /\ d' = [d EXCEPT !.ns = s[1], !.nf = s[2], !.big = TRUE] /\ pc' = "c1"
 \* thin strips for the kernels that share their pixels / rows out (big = TRUE: four contents, one parameter class)
 PickStripShape(s) == /\ pc = "shape" /\ d.k \in ParK /\ s[1] >= MinR(d.k) /\ s[2] >= MinC(d.k)
@@ -387,27 +573,35 @@ PickContent(c) == /\ pc = "c1" /\ (d.big => c \in BigContents)
                   /\ (d.k = "sparse_smooth" /\ d.nf > 2 * Chunk => c \in FewPixels)
                   /\ (~Thorough /\ d.nf > 2 * Chunk => c \in FewPixels)     \* quick scope: widest shape, few pixels
                   /\ (d.k = "splat" => c = "empty")                        \* rgba is output only
+                  /\ (Fam(d.k) = "wrap" => c \in WContents)
                   /\ d' = [d EXCEPT !.c1 = c] /\ pc' = "c2"
 PickContent2(c) == /\ pc = "c2" /\ c \in C2s(d.k) /\ d' = [d EXCEPT !.c2 = c]
                    /\ pc' = IF d.k = "splat" THEN "n" ELSE "par"
 PickSize(n) == /\ pc = "n" /\ n \in Ns(d.k) /\ d' = [d EXCEPT !.n = n] /\ pc' = "m"
+\* the long lists of the calls under an OpenMP environment
+PickEnvSize(n) == /\ pc = "n" /\ HasEnvNs(d.k) /\ n \in EnvNs /\ d' = [d EXCEPT !.n = n] /\ pc' = "m"
 PickSize2(m) == /\ pc = "m" /\ m \in Ms(d.k, d.n) /\ d' = [d EXCEPT !.m = m] /\ pc' = "par"
 PickParam(p) == /\ pc = "par" /\ p \in Pars(d.k)
-                /\ (d.big => p \in BigPars(d.k))                \* one parameter class on big / strip shapes
+                /\ (d.big /\ Fam(d.k) # "wrap" => p \in BigPars(d.k))     \* one parameter class on big / strip shapes
                 /\ d' = [d EXCEPT !.par = p] /\ pc' = "opt"
-PickOption(o) == /\ pc = "opt" /\ o \in Opts(d.k) /\ d' = [d EXCEPT !.opt = o]
-                 /\ pc' = IF d.k \in ParK THEN "nt" ELSE "finish"
+PickOption(o) == /\ pc = "opt" /\ o \in Opts(d.k) /\ d' = [d EXCEPT !.opt = o] /\ pc' = "wf"
+\* verbose > 0: every small shape, content, parameter and option class (not the big / strip / long ones)
+PickVerbose(v) == /\ pc = "vb" /\ v \in Verbs(d.k) /\ (v > 0 => ~d.big /\ ~EnvOnly(d))
+                  /\ d' = [d EXCEPT !.vb = v]
+                  /\ pc' = IF Fam(d.k) \in {"fix", "wrap"} THEN "finish" ELSE "nt"
 \* nt = 0: the call runs with whatever the process has (the harness sweeps 1 / 4 / 16 over a sample of those)
-PickThreads(nt) == /\ pc = "nt" /\ (nt = 0 \/ (nt \in NT /\ ThreadScope(d)))
+PickThreads(nt) == /\ pc = "nt" /\ (nt = 0 \/ (nt \in NT /\ ThreadScope(d))) /\ ~EnvOnly(d)
                    /\ d' = [d EXCEPT !.nt = nt] /\ pc' = "finish"
+\* the call is made in a process started under OmpEnvs[e] (any kernel with a size, in ParK or not)
+PickEnv(e) == /\ pc = "nt" /\ EnvScope(d) /\ d' = [d EXCEPT !.env = e] /\ pc' = "finish"
 \* the one call whose work split does not fit an int (all choices at once: full content, ramp, HugeNT threads)
 PickHugeShape(s) == /\ pc = "shape" /\ d.k = "localmaxlabel"
                     /\ d' = [d EXCEPT !.ns = s[1], !.nf = s[2], !.big = TRUE, !.c1 = "full", !.par = "ramp", !.nt = HugeNT]
-                    /\ pc' = "finish"
+                    /\ pc' = "wf"
 
 \* ---- materialised arrays of a descriptor -----------------------------------------------------
 Npx(x) == x.ns * x.nf
-SmallImg(x) == Fam(x.k) \in {"img", "sparse"} /\ Npx(x) <= 16
+SmallImg(x) == Fam(x.k) \in {"img", "sparse", "wrap"} /\ Npx(x) <= 16
 SmallVec(x) == Fam(x.k) \in {"peak", "vec"} /\ x.n <= 4 /\ x.m <= 4
 MaskOf(cls, ns, nf) == [p \in 0..(ns * nf - 1) |-> IF On(cls, ns, nf, p \div nf, p % nf) THEN 1 ELSE 0]
 Mask1(x) == MaskOf(x.c1, x.ns, x.nf)
@@ -443,6 +637,38 @@ Lab2(x) == Components(Mask2(x), x.nf, 1)
 NpkOf(par, n) == CASE par = "exact" -> n [] par = "slack" -> n + 2 [] par = "under" -> IF n > 0 THEN n - 1 ELSE 0
                    [] par = "zero" -> 0
 
+\* ---- the overlap callers: label numbering and allocation ----------------------------------------------
+\* the precondition of compress_duplicates(i, j, oi, oj, tmp): tmp is a histogram indexed by label VALUE
+CdPre(labels, tmplen) == \A v \in labels : 0 <= v /\ v < tmplen
+Max2(a, b) == IF a > b THEN a ELSE b
+\* capacity the caller creates its caching object with (opt: 0 default, 1 tight - the idiom of sinograms/properties.py
+\* `overlaps_linear(nnz.max() + 1)` -, 2 smallest)
+WCap(x, len1, len2, c1n, c2n) ==
+  CASE x.k = "py:overlaps_linear" -> (CASE x.opt = 0 -> 4 * Chunk [] x.opt = 1 -> Max2(len1, len2) + 1 [] OTHER -> 1)
+    [] x.k = "py:overlaps_matrix" -> (CASE x.opt = 0 -> 256 [] x.opt = 1 -> Max2(Max2(c1n, c2n), 1) [] OTHER -> 1)
+    [] OTHER -> 0
+\* LabCls: "frame" labels 1..n on each frame; running numbers through the scan (frame 1: base + 1 .. base + c1n = n1,
+\* frame 2: n1 + 1 .. n1 + c2n = n2, n1 / n2 = labels so far - SparseScan.cplabel(countall=True) style) whose largest
+\* value n2 is exactly the capacity ("atcap"), one above it ("above"), or far above every pixel count ("far")
+WBase(x, cap, c1n, c2n) == CASE x.par = "atcap" -> cap - c1n - c2n [] x.par = "above" -> cap + 1 - c1n - c2n
+                             [] x.par = "far" -> 100000 [] OTHER -> 0
+WNum(x) ==      \* [base, n1, n2, off2, cap, len1, len2] of a small caller descriptor
+  LET a == Lab1(x)  b == Lab2(x)  len1 == Count(Mask1(x))  len2 == Count(Mask2(x))
+      cap == WCap(x, len1, len2, a.n, b.n)
+      base == WBase(x, cap, a.n, b.n)
+  IN IF x.par = "frame" THEN [base |-> 0, off2 |-> 0, n1 |-> a.n, n2 |-> b.n, cap |-> cap, len1 |-> len1, len2 |-> len2]
+     ELSE [base |-> base, off2 |-> base + a.n, n1 |-> base + a.n, n2 |-> base + a.n + b.n, cap |-> cap, len1 |-> len1, len2 |-> len2]
+WBaseOf(x) == WNum(x).base
+\* the label values of the pixels both frames have (what the caller hands to compress_duplicates)
+WLabelsOf(x) == LET a == Lab1(x)  b == Lab2(x)  w == WNum(x)
+                    both == {p \in DOMAIN a.lab : Mask1(x)[p] = 1 /\ Mask2(x)[p] = 1}
+                IN {w.base + a.lab[p] : p \in both} \cup {w.off2 + b.lab[p] : p \in both}
+\* entries of the histogram the caller allocates: overlaps_linear max(capacity, pixels, n1, n2) + 1 (sparseframe.py:491-495,
+\* 484), overlaps max(n1, n2) + 1 (sparseframe.py:574)
+WTmpLen(x) == LET w == WNum(x) IN
+              IF x.k = "py:overlaps_linear" THEN Max2(Max2(w.cap, Max2(w.len1, w.len2)), Max2(w.n1, w.n2)) + 1
+              ELSE Max2(w.n1, w.n2) + 1
+
 \* ---- the preconditions, stated on the arrays of the call -----------------------------------------
 StrictlySorted(coo) == \A a, b \in 1..Len(coo) : a < b => coo[a] < coo[b]       \* coo entries are row * nf + col
 IsPerm(f, n) == (\A t \in 0..(n - 1) : f[t] \in 0..(n - 1)) /\ Cardinality({f[t] : t \in 0..(n - 1)}) = n
@@ -450,10 +676,12 @@ NonDecr(f, n) == \A t \in 1..(n - 1) : f[t - 1] <= f[t]
 
 WellFormed(x) ==
   LET k == x.k IN
-  /\ k \in Kernels
-  /\ Fam(k) \in {"img", "sparse"} =>
+  /\ k \in AllK
+  /\ x.vb \in Verbs(k)
+  /\ Fam(k) \in {"img", "sparse", "wrap"} =>
        /\ x.ns >= MinR(k) /\ x.nf >= MinC(k) /\ x.ns <= 65535 /\ x.nf <= 65535      \* uint16 coordinates
        /\ x.c1 \in Contents
+  /\ k \in {"py:overlaps_linear", "py:overlaps"} /\ SmallImg(x) => WBaseOf(x) >= 0   \* the label numbering exists
   /\ Fam(k) = "sparse" /\ SmallImg(x) =>
        \* sorted coo without duplicates inside the shape (sparse_is_sorted is the checker itself: any list)
        LET coo == CooOf(Mask1(x), Npx(x)) IN
@@ -489,8 +717,8 @@ WellFormed(x) ==
                            /\ NonDecr([u \in 0..(x.m - 1) |-> CsJ(x.par, u)], x.m)
   /\ k = "compress_duplicates" =>                           \* histogram tmp[label]: 0 <= label < nt
        /\ x.n >= 1
-       /\ LET nt == CdMax(x.par, x.n) + 1 + x.m IN
-          \A t \in 0..(x.n - 1) : CdI(x.par, x.n, t) \in 0..(nt - 1) /\ CdJ(x.par, x.n, t) \in 0..(nt - 1)
+       /\ CdPre({CdI(x.par, x.n, t) : t \in 0..(x.n - 1)} \cup {CdJ(x.par, x.n, t) : t \in 0..(x.n - 1)},
+                CdMax(x.par, x.n) + 1 + x.m)
   /\ k = "array_histogram" => x.m >= 1                     \* nhist bins, low < high (the harness passes 0 < 8)
   /\ k \in {"array_mean_var_cut", "array_mean_var_msk", "array_stats", "uint16_to_float_darksub",
             "uint16_to_float_darkflm"} => x.n >= 1         \* images: y0 = img[0]
@@ -504,42 +732,57 @@ WellFormed(x) ==
 IntFits(x) == /\ x.k = "sparse_smooth" => x.nf - 1 <= 46340
               /\ x.k = "blobproperties" => x.nf - 1 <= 46340 /\ x.ns - 1 <= 46340
 
-Finish == /\ pc = "finish"
-          /\ WellFormed(d) = TRUE                \* ill-formed combinations of the choices are not calls
-                                                 \* ("= TRUE": evaluated as a value, not expanded as an action)
-          /\ pc' = "done" /\ UNCHANGED d
-\* combinations the Pick actions can build but that are not well-formed calls end here (counted by the harness)
-Reject == /\ pc = "finish" /\ WellFormed(d) = FALSE /\ pc' = "illformed" /\ UNCHANGED d
+\* the choices so far fix the arrays of the call: ill-formed combinations are not calls (counted by the harness).
+\* The choices that follow (verbose, thread count, OpenMP environment) touch no array: WellFormed does not mention
+\* them, their scopes are OptionInv / ThreadInv
+\* (ill-formed combinations end in "illformed"; WellFormed is evaluated once, as a value)
+CheckWF == /\ pc = "wf"
+           /\ LET ok == (WellFormed(d) = TRUE) IN pc' = (IF ~ok THEN "illformed" ELSE IF d.nt > 0 THEN "finish" ELSE "vb")
+           /\ UNCHANGED d
+Finish == /\ pc = "finish" /\ pc' = "done" /\ UNCHANGED d
 
 \* the universes of the choices (the guards inside the actions select what the kernel at hand offers)
-AllC2   == UNION {C2s(k) : k \in Kernels}
-AllNs   == UNION {Ns(k) : k \in Kernels}
-AllMs   == UNION {Ms(k, n) : k \in Kernels, n \in AllNs}
-AllPars == UNION {Pars(k) : k \in Kernels}
-AllOpts == UNION {Opts(k) : k \in Kernels}
+AllC2   == UNION {C2s(k) : k \in AllK}
+AllNs   == UNION {Ns(k) : k \in AllK}
+AllMs   == UNION {Ms(k, n) : k \in AllK, n \in AllNs \cup EnvNs}
+AllPars == UNION {Pars(k) : k \in AllK}
+AllOpts == UNION {Opts(k) : k \in AllK}
 
-Next == \/ \E k \in Kernels : PickKernel(k)
+Next == \/ \E k \in AllK : PickKernel(k)
         \/ \E s \in Shapes : PickShape(s)
-        \/ \E s \in BigShapes : PickBigShape(s)
+        \/ \E s \in BigShapes \cup EnvShapes : PickBigShape(s)
         \/ \E s \in StripShapes : PickStripShape(s)
         \/ \E s \in HugeShapes : PickHugeShape(s)
         \/ \E c \in Contents : PickContent(c)
         \/ \E c \in AllC2 : PickContent2(c)
         \/ \E n \in AllNs : PickSize(n)
+        \/ \E n \in EnvNs : PickEnvSize(n)
         \/ \E m \in AllMs : PickSize2(m)
         \/ \E p \in AllPars : PickParam(p)
         \/ \E o \in AllOpts : PickOption(o)
+        \/ \E v \in Verb : PickVerbose(v)
         \/ \E nt \in NT \cup {0} : PickThreads(nt)
-        \/ Finish \/ Reject
+        \/ \E e \in DOMAIN OmpEnvs : PickEnv(e)
+        \/ CheckWF \/ Finish
 Spec == Init /\ [][Next]_vars
 
 \* ---- invariants ---------------------------------------------------------------------------------
 TypeOK == /\ pc \in Stages \cup {"illformed"}
-          /\ d.k \in Kernels \cup {"-"} /\ d.ns \in Nat /\ d.nf \in Nat /\ d.n \in Nat /\ d.m \in Nat
-          /\ d.big \in BOOLEAN /\ d.nt \in NT \cup {0, HugeNT}
-WellFormedInv == pc = "done" => WellFormed(d)
+          /\ d.k \in AllK \cup {"-"} /\ d.ns \in Nat /\ d.nf \in Nat /\ d.n \in Nat /\ d.m \in Nat
+          /\ d.big \in BOOLEAN /\ d.nt \in NT \cup {0, HugeNT} /\ d.vb \in Verb /\ d.env \in {0} \cup DOMAIN OmpEnvs
+\* (stage "vb" is entered only through CheckWF; evaluated again on the finished descriptors without verbose /
+\*  thread count / environment, which share their arrays with the others)
+WellFormedInv == (pc = "done" /\ d.vb = 0 /\ d.nt = 0 /\ d.env = 0) => WellFormed(d)
 PartitionInv == (pc = "done" /\ <<d.ns, d.nf>> \notin HugeShapes) => PartFits(d)
 ThreadInv == (pc = "done" /\ d.nt > 0) => ThreadScope(d) /\ Trip(d) >= 1
+\* options and runtime environments sit where the interface / the scope says
+OptionInv == pc = "done" => /\ (d.vb > 0 => (d.k \in VerbK \/ d.k = "py:labelimage") /\ d.nt = 0 /\ d.env = 0)
+                            /\ (d.env > 0 => EnvScope(d) /\ d.nt = 0 /\ TeamMayDiffer(OmpEnvs[d.env]))
+                            /\ (EnvOnly(d) => d.env > 0)
+                            /\ d.opt \in Opts(d.k)
+\* the callers' allocation rule satisfies the precondition of the kernel they feed
+WrapperInv == (pc = "done" /\ d.k \in {"py:overlaps_linear", "py:overlaps"} /\ SmallImg(d)) =>
+                 CdPre(WLabelsOf(d), WTmpLen(d))
 \* coverage: every kernel of the interface has a well-formed descriptor in the smallest scope
 HasCall(k) == IF Fam(k) \in {"img", "sparse"}
               THEN \E s \in Shapes, c \in Contents, c2 \in C2s(k), p \in Pars(k), o \in Opts(k) :
@@ -598,6 +841,13 @@ MatVec(x) ==
          [i |-> AsSeq(ci, n), j |-> AsSeq(cj, n), nt |-> CdMax(x.par, n) + 1 + m, npairs |-> Cardinality(pairs),
           total |-> n]
     [] OTHER -> [none |-> 0]
+MatWrap(x) ==
+  LET N == Npx(x)  a == Lab1(x)  b == Lab2(x) IN
+  IF x.k \in {"py:overlaps_linear", "py:overlaps_matrix", "py:overlaps"}
+  THEN [mask1 |-> AsSeq(Mask1(x), N), mask2 |-> AsSeq(Mask2(x), N), lab8 |-> AsSeq(a.lab, N), n8 |-> a.n,
+        lab2 |-> AsSeq(b.lab, N), n2 |-> b.n, w |-> WNum(x), tmplen |-> WTmpLen(x),
+        maxlabel |-> LET S == WLabelsOf(x) IN IF S = {} THEN 0 ELSE CHOOSE v \in S : \A u \in S : u <= v]
+  ELSE [mask1 |-> AsSeq(Mask1(x), N), mask2 |-> AsSeq(IF x.c2 = "-" THEN Mask1(x) ELSE Mask2(x), N)]
 
 Emit == (pc = "done" /\ EmitOn) =>
           PrintT("@@" \o ToJson([d |-> d, intfits |-> IntFits(d), partfits |-> PartFits(d),
@@ -606,11 +856,16 @@ Emit == (pc = "done" /\ EmitOn) =>
                                                            gtrows |-> (Fam(d.k) = "img" /\ d.nt > d.ns)]
                                          ELSE [E |-> 0, tag |-> "-", gtrows |-> FALSE],
                                  \* the materialised arrays do not depend on the thread count: once, with nt = 0
-                                 mat |-> IF d.nt > 0 THEN [none |-> 0]
+                                 mat |-> IF d.nt > 0 \/ d.vb > 0 \/ d.env > 0 THEN [none |-> 0]
+                                         ELSE IF Fam(d.k) = "wrap" THEN (IF SmallImg(d) THEN MatWrap(d) ELSE [none |-> 0])
                                          ELSE IF SmallImg(d) THEN MatImg(d) ELSE IF SmallVec(d) THEN MatVec(d) ELSE [none |-> 0]]))
 \* the interface table, once (initial state)
 EmitInterface == (pc = "kernel" /\ EmitOn) =>
           PrintT("@@" \o ToJson([interface |-> PyfFunctions, exempt |-> Exempt,
                                  outputs |-> [k \in Kernels |-> DOMAIN Outputs(k)], parallel |-> ParK, nts |-> NT,
-                                 family |-> [k \in Kernels |-> Fam(k)]]))
+                                 family |-> [k \in Kernels |-> Fam(k)],
+                                 scalars |-> [k \in Kernels |-> ScalarArgs(k)], verb |-> Verb,
+                                 opts |-> [k \in AllK |-> Opts(k)], verbs |-> [k \in AllK |-> Verbs(k)],
+                                 envs |-> OmpEnvs, callers |-> [w \in Callers |-> Calls(w)],
+                                 extents |-> [k \in Kernels |-> Extents(k)]]))
 =============================================================================
